@@ -149,6 +149,132 @@ theorem reset_value_partial (E : Env) (hT : E.T.OK) (k : Kind) (x : Native) (r :
     (hval ▸ hne) hu
   exact ⟨⟨⟨.str r.st.u, v, r.st.u⟩, true, [true]⟩, by simp [setScalar, h1, hu], rfl, hval.symm, rfl⟩
 
+/-! ### Float and Decimal: re-setting the text, from text-stability of the opaque conversions -/
+
+theorem adaptTok_cases (E : Env) (dec sg : Bool) (x : Native) (v : Native) (h : adaptTok E dec sg x = .ok (some v)) :
+    ∃ t, E.conv dec x = some (some t) ∧ v = (if dec then .decimal t else .float t) := by
+  unfold adaptTok at h
+  split at h
+  · simp at h
+  · simp at h
+  · rename_i t ht
+    simp only [Except.ok.injEq] at h
+    exact ⟨t, ht, checkSigned_some _ _ _ _ h⟩
+
+/-- provenance of opaque values: they come out of the conversion table -/
+theorem adapt_opaque_provenance (E : Env) (dec sg : Bool) (x v : Native)
+    (h : adapt E (if dec then .decimal sg else .float sg) x = .ok (some v)) :
+    v = .none ∨ ∃ y t, E.conv dec y = some (some t) ∧ v = (if dec then .decimal t else .float t) := by
+  cases dec <;> simp only [Bool.false_eq_true, if_false, if_true] at h ⊢
+  all_goals
+    cases x <;> simp only [adapt] at h
+    case none => simp at h; exact Or.inl h.symm
+    all_goals first
+      | (simp at h; done)
+      | (obtain ⟨t, ht, hv⟩ := adaptTok_cases _ _ _ _ _ h; simp at hv; exact Or.inr ⟨_, t, ht, hv⟩)
+
+theorem serialize_opaque (E : Env) (dec sg : Bool) (t : Tok) :
+    uOfValue E (if dec then .decimal sg else .float sg) (if dec then .decimal t else .float t) = .ok (tokText t) := by
+  cases dec <;> simp only [uOfValue, serialize, tokText, Bool.false_eq_true, if_false, if_true] <;> cases t.fmt <;> rfl
+
+/-- A-form for the opaque kinds, from text-stability of the table -/
+theorem reset_u_opaque (E : Env) (dec : Bool) (hst : OpaqueStable E dec) (sg : Bool) (x v : Native) (u : Str)
+    (ha : adapt E (if dec then .decimal sg else .float sg) x = .ok (some v))
+    (hu : uOfValue E (if dec then .decimal sg else .float sg) v = .ok u) :
+    adapt E (if dec then .decimal sg else .float sg) (.str u) = .ok none ∨
+    ∃ v', adapt E (if dec then .decimal sg else .float sg) (.str u) = .ok (some v') ∧
+      uOfValue E (if dec then .decimal sg else .float sg) v' = .ok u := by
+  have hadapt : ∀ s, adapt E (if dec then .decimal sg else .float sg) (.str s) = adaptTok E dec sg (.str (strip E.T s)) := by
+    intro s; cases dec <;> simp [adapt]
+  rcases adapt_opaque_provenance E dec sg x v ha with rfl | ⟨y, t, hy, rfl⟩
+  · have : u = [] := by cases dec <;> simp [uOfValue] at hu <;> exact hu
+    subst this
+    left
+    rw [hadapt, strip_nil]
+    simp [adaptTok, hst.1]
+  · rw [serialize_opaque] at hu
+    simp only [Except.ok.injEq] at hu
+    subst hu
+    rw [hadapt]
+    rcases hst.2 y t hy with h | ⟨t', h, htxt⟩
+    · left; simp [adaptTok, h]
+    · unfold adaptTok
+      simp only [h]
+      cases hcs : checkSigned sg t'.neg (if dec then Native.decimal t' else Native.float t') with
+      | none => left; rfl
+      | some w =>
+        right
+        have := checkSigned_some _ _ _ _ hcs
+        subst this
+        exact ⟨_, rfl, by rw [serialize_opaque, htxt]⟩
+
+/-- A-form for every kind: Float / Decimal through `OpaqueStable`, the others through the model -/
+theorem reset_u_all (E : Env) (hT : E.T.OK) (k : Kind) (hst : OpaqueOK E k)
+    (hc : Coherent k = true) (hw : WidthOK E.T k = true) (x v : Native) (u : Str)
+    (hx : NoHuge E.T x = true) (hwf : Native.WF x = true)
+    (ha : adapt E k x = .ok (some v)) (hu : uOfValue E k v = .ok u)
+    (hnone : v = .none → CoherentNone k = true) :
+    adapt E k (.str u) = .ok none ∨ ∃ v', adapt E k (.str u) = .ok (some v') ∧ uOfValue E k v' = .ok u := by
+  induction k generalizing v with
+  | float sg => exact reset_u_opaque E false hst sg x v u ha hu
+  | decimal sg => exact reset_u_opaque E true hst sg x v u ha hu
+  | constrained c vd ih =>
+    rw [uOfValue_constrained] at hu
+    simp only [Coherent, WidthOK] at hc hw
+    have hchild : adapt E c x = .ok (some v) ∧ vd.holds v = true := by
+      simp only [adapt] at ha
+      split at ha
+      · simp at ha
+      · simp at ha
+      · rename_i w hw'
+        split at ha
+        · rename_i hh
+          simp only [Except.ok.injEq, Option.some.injEq] at ha
+          subst ha
+          exact ⟨hw', hh⟩
+        · simp at ha
+    rcases ih hst hc hw v hchild.1 hu (fun h => by simpa [CoherentNone] using hnone h) with h | ⟨v', h1, h2⟩
+    · left; simp [adapt, h]
+    · by_cases hh : vd.holds v' = true
+      · right; exact ⟨v', by simp [adapt, h1, hh], by rw [uOfValue_constrained]; exact h2⟩
+      · left; simp [adapt, h1, hh]
+  | string b => exact reset_u_value E hT _ rfl hc hw v u (adapt_value E hT _ x v hx hwf ha) hu hnone
+  | integer sg w => exact reset_u_value E hT _ rfl hc hw v u (adapt_value E hT _ x v hx hwf ha) hu hnone
+  | boolean tr fl ts fs => exact reset_u_value E hT _ rfl hc hw v u (adapt_value E hT _ x v hx hwf ha) hu hnone
+  | date b => exact reset_u_value E hT _ rfl hc hw v u (adapt_value E hT _ x v hx hwf ha) hu hnone
+  | time b => exact reset_u_value E hT _ rfl hc hw v u (adapt_value E hT _ x v hx hwf ha) hu hnone
+  | datetime b => exact reset_u_value E hT _ rfl hc hw v u (adapt_value E hT _ x v hx hwf ha) hu hnone
+
+/-- **reset_text** for every kind, Float and Decimal included, given a text-stable conversion table -/
+theorem reset_text_all_partial (E : Env) (hT : E.T.OK) (k : Kind) (hst : OpaqueOK E k) (x : Native) (r : SetResult)
+    (hc : Coherent k = true) (hcn : CoherentNone k = true) (hw : WidthOK E.T k = true)
+    (hx : NoHuge E.T x = true) (hwf : Native.WF x = true)
+    (h : setScalar E k x = .ok r) (hf : r.flag = true) :
+    ∃ r', setScalar E k (.str r.st.u) = .ok r' ∧ r'.st.u = r.st.u := by
+  obtain ⟨v, ha, _, hu⟩ := set_success E k x r h hf
+  rcases reset_u_all E hT k hst hc hw x v r.st.u hx hwf ha hu (fun _ => hcn) with h1 | ⟨v', h1, h2⟩
+  · exact ⟨⟨⟨.str r.st.u, .none, r.st.u⟩, false, [false]⟩, by simp [setScalar, h1, uOfFailed], rfl⟩
+  · exact ⟨⟨⟨.str r.st.u, v', r.st.u⟩, true, [true]⟩, by simp [setScalar, h1, h2], rfl⟩
+
+/-- `norm_idem` for every kind, Float and Decimal included (text-stable conversion table) -/
+theorem norm_idem_all (E : Env) (hT : E.T.OK) (hE : EnvTotal E) (k : Kind) (hst : OpaqueOK E k)
+    (hc : Coherent k = true) (hw : WidthOK E.T k = true) (s : Str) :
+    norm E k (norm E k s) = norm E k s := by
+  obtain ⟨r, hr⟩ := set_total_text E hT hE k s
+  have hn : norm E k s = r.st.u := by simp [norm, hr]
+  rw [hn]
+  by_cases hf : r.flag = true
+  · obtain ⟨v, ha, _, hu⟩ := set_success E k (.str s) r hr hf
+    rcases reset_u_all E hT k hst hc hw (.str s) v r.st.u rfl rfl ha hu
+        (fun h => absurd h (adapt_str_ne_none E k s v ha)) with h1 | ⟨v', h1, h2⟩
+    · simp [norm, setScalar, h1, uOfFailed]
+    · simp [norm, setScalar, h1, h2]
+  · have hff : r.flag = false := by simpa using hf
+    obtain ⟨_, hu⟩ := set_failure E k (.str s) r hr hff
+    simp only [uOfFailed, Except.ok.injEq] at hu
+    rw [← hu, hn]
+    exact hu.symm
+
 /-- the full re-set clause: no hypothesis on the Boolean configuration -/
 def C04_Full_reset_u : Prop :=
   ∀ (k : Kind) (x : Native) (r : SetResult), Modelled k = true → Native.WF x = true →
